@@ -748,13 +748,11 @@ fn expand_home(tokens: &mut types::Tokens) {
 }
 
 fn env_in_token(token: &str) -> bool {
-    if libs::re::re_contains(token, r"\$\{?[\$\?]\}?") {
-        return true;
-    }
+    let has_special = libs::re::re_contains(token, r"\$\{?[\$\?]\}?");
 
     let ptn_env_name = r"[a-zA-Z_][a-zA-Z0-9_]*";
     let ptn_env = format!(r"\$\{{?{}\}}?", ptn_env_name);
-    if !libs::re::re_contains(token, &ptn_env) {
+    if !has_special && !libs::re::re_contains(token, &ptn_env) {
         return false;
     }
 
@@ -771,7 +769,7 @@ fn env_in_token(token: &str) -> bool {
     }
 
     // for cmd-line like `alias foo='echo $PWD'`
-    let ptn_env = format!(r"='.*\$\{{?{}\}}?.*'$", ptn_env_name);
+    let ptn_env = format!(r"='.*\$\{{?({}|\$|\?)\}}?.*'$", ptn_env_name);
     !libs::re::re_contains(token, &ptn_env)
 }
 
